@@ -25,5 +25,7 @@ var corpus = [][]string{
 	{"type cat top-bool", "def -", "dec v 00", "dec v 01", "dec v 02", "dec v ff"},
 	{"type cat ptr-scalar", "def -", "enc v (l nil)", "dec v 020000000500", "dec v 00000000"},
 	{"type cat top-hash-bounds", "def -", "dec v 000102030405060708090a0b0c0d0e0f101112131415161718191a1b1c1d1e1f"},
+	// duplicate map keys in sorted position must be rejected (else two byte strings decode to one map)
+	{"type cat top-map", "def -", "dec v 0200010000010000", "dec v 020001000001000105", "dec v 01000100020506"},
 	{"type cat top-arr", "def -", "dec v 03010002000300", "dec v 0201000200", "dec v 040100020003000400"},
 }
